@@ -384,6 +384,7 @@ type xBuilt struct {
 }
 
 type xHooks struct {
+	OmitResolve bool // object types other than the roots get no Resolve function: DefaultResolveFn delegates to sources implementing graphql.FieldResolver
 	IsTypeOf    func(p graphql.IsTypeOfParams, object string) bool
 	Resolve     func(p graphql.ResolveParams) (interface{}, error)
 	ResolveType func(p graphql.ResolveTypeParams, abstract string) *graphql.Object
@@ -435,6 +436,9 @@ func (s *xSchema) build(h *xHooks) (*xBuilt, error) {
 		for _, fn := range t.Fields {
 			pf := s.Pool[fn]
 			f := &graphql.Field{Type: conv(pf.Type), Resolve: h.Resolve}
+			if h.OmitResolve && t.Kind == "object" && t.Name != "Q" && t.Name != "M" {
+				f.Resolve = nil
+			}
 			if len(pf.Args) > 0 {
 				f.Args = graphql.FieldConfigArgument{}
 				for _, a := range pf.Args {
